@@ -478,10 +478,16 @@ func (f Field) GetType() string {
 	case *FixedStringFieldAttribute, *DynamicStringFieldAttribute:
 		return "string"
 	case *ObjectFieldAttribute:
+		if c.RefPacket == nil { // not resolved (yet): the declared type name is all we have
+			return c.PacketName
+		}
 		return c.RefPacket.Name
 	case *MatchFieldAttribute:
 		return "match"
 	default:
+		if f.Attr == nil {
+			return ""
+		}
 		switch strings.ToLower(f.Attr.GetType()) {
 		case "i8", "int8":
 			return "i8"
